@@ -171,6 +171,12 @@ def explore(run, tier):
         codec = rng.choice(iu.CODECS)
         m, e = iu.gen_message(rng, pkg, codec)
         cases.append(mk('pkg', codec, rng.randrange(2), m, e))
+    # PDSxxxx keys together with a directly supplied LATER carrier element
+    for _ in range(60 if tier == 'quick' else 1000):
+        codec = rng.choice(codecs3)
+        me = iu.gen_mixed_pds(rng, pkg, codec)
+        if me:
+            cases.append(mk('pkg', codec, rng.randrange(2), me[0], me[1]))
     # generated configurations
     for _ in range(12 if tier == 'quick' else 60):
         cfg = iu.gen_config(rng)
